@@ -17,6 +17,8 @@ for d in sorted(glob.glob("/verif/seeded/*")):
         verdict = "caught (thorough only, %ss)" % t.get("wall_s")
     elif q.get("exit") == 2 or t.get("exit") == 2:
         verdict = "MISSED (harness error)"
+    if not verdict.startswith("caught") and m.get("caught_by_other_check"):
+        verdict = "not by its own check; caught by " + m["caught_by_other_check"]
     keys = []
     for l in (q.get("lines", []) + t.get("lines", [])):
         l = l.strip()
@@ -35,5 +37,6 @@ with open("/verif/SEEDED.md", "w") as f:
     for r in rows:
         f.write("| %s | %s | %s | %s | %s | %s |\n" % r)
     caught = sum(1 for r in rows if r[4].startswith("caught"))
-    f.write("\n%d confirmed seeds, %d caught by the registered check.\n" % (len(rows), caught))
+    other = sum(1 for r in rows if r[4].startswith("not by its own"))
+    f.write("\n%d confirmed seeds, %d caught by the registered check of their property, %d more by the check of another property.\n" % (len(rows), caught, other))
 print(len(rows), "seeds")
